@@ -67,12 +67,11 @@ theorem chnaPayload_length (es : List ChnaEntry) (h : ∀ e ∈ es, e.OK) :
 
 theorem junkChunk_eq : junkChunk = junkC.enc := by decide
 theorem fmtChunk_eq (f : Fmt) : fmtChunk f = (fmtC f).enc := by
-  simp [fmtChunk, fmtC, Chunk.enc, fmtPayload, pad, le_length]
+  simp [fmtChunk, fmtC, Chunk.enc, fmtPayload]
 theorem metaChunk_eq (id v : Bytes) : metaChunk id v = (metaC id v).enc := by
   simp [metaChunk, metaC, Chunk.enc]
 theorem chnaChunk_eq (es : List ChnaEntry) (h : ∀ e ∈ es, e.OK) : chnaChunk es = (chnaC es).enc := by
-  have : (chnaPayload es).length % 2 = 0 := by rw [chnaPayload_length es h]; omega
-  simp [chnaChunk, chnaC, Chunk.enc, pad, this]
+  simp [chnaChunk, chnaC, Chunk.enc]
 
 theorem optChnaB_eq {c : Option (List ChnaEntry)} (h : ChnaOK c) : optChnaB c = encAll (optChnaC c) := by
   cases c with
@@ -424,14 +423,14 @@ theorem read_data (hf : f = pre ++ (encAll (F ++ bodyC fmt c0 a0 b0 sz data dp c
 
 /-- **After the walk.** On a file whose chunks are those the writer lays out, the rest of the reader's
 constructor succeeds without warnings and the accessors return what was written. -/
-theorem finishRead_written {ff : Bytes} {ds : Option Ds64} (hfmt : FmtOK fmt) (hc0 : ChnaOK c0) (hcF : ChnaOK cF)
+theorem finishRead_written {ff : Bytes} {ds : Option Ds64} {w : List Warn} (hfmt : FmtOK fmt) (hc0 : ChnaOK c0) (hcF : ChnaOK cF)
     (hf : f = pre ++ (encAll (F ++ bodyC fmt c0 a0 b0 sz data dp cF aF bF) ++ tail))
     (hF : ∀ x ∈ F, x.id = idJUNK)
     (hds : ∀ d, ds = some d → d.dataSize = data.length)
     (hdata : data.length % fmt.blockAlign = 0) :
-    finishRead f ff ds (walkTable pre.length (F ++ bodyC fmt c0 a0 b0 sz data dp cF aF bF) []) [] =
+    finishRead f ff ds (walkTable pre.length (F ++ bodyC fmt c0 a0 b0 sz data dp cF aF bF) []) w =
       .ok (⟨ff, ⟨1, fmt.channels, fmt.rate, fmt.bits⟩, data.length / fmt.blockAlign, data,
-            effChna c0 cF, effMeta a0 aF, effMeta b0 bF⟩, []) := by
+            effChna c0 cF, effMeta a0 aF, effMeta b0 bF⟩, w) := by
   obtain ⟨fpos, hf1, hf2⟩ := read_fmt hf hF
   obtain ⟨dpos, hd1, hd2⟩ := read_data hf hF
   have hax := read_axml hf hF
